@@ -178,7 +178,8 @@ func H_C03_DecodeBytes() {
 	s := c03Pre(c03Lmax(24, 40))
 	b, err := s.d.DecodeBytes()
 	if err == nil {
-		verifAssert(len(b) == 0 || verifSameObject(b, s.p), "the returned slice lies inside the input")
+		// fast mode: a sub-slice of the input; safe mode: a copy (the caller may reuse the input, C10)
+		verifAssert(len(b) == 0 || verifSameObject(b, s.p) == (s.d.Mode() == DecoderModeFast), "the returned slice is a sub-slice of the input exactly in fast mode")
 		verifAssert(len(b) <= len(s.p)-s.off, "a declared length beyond the remaining input is an error")
 	}
 	c03Post(s, err, c03BytesLen(s))
